@@ -85,11 +85,15 @@ class Run:
         shutil.copy(os.path.join(REPO, "go.sum"), os.path.join(h, "go.sum"))
         return h
 
-    def build(self, cmd="rec", tags=(), race=False, name=None):
-        """go build one of the harness commands against the current /repo tree."""
+    def build(self, cmd="rec", tags=(), race=False, name=None, overlay=None):
+        """go build one of the harness commands against the current /repo tree (overlay: {path in the tree: replacement})."""
         h = self.harness_dir()
         out = os.path.join(self.scratch, name or (cmd + "-" + ("_".join(tags) or "default") + ("-race" if race else "")))
         args = ["go", "build", "-o", out]
+        if overlay:
+            ovp = os.path.join(self.scratch, "overlay-b%d.json" % len(os.listdir(self.scratch)))
+            json.dump({"Replace": overlay}, open(ovp, "w"))
+            args += ["-overlay", ovp]
         if tags:
             args += ["-tags", ",".join(tags)]
         if race:
@@ -100,13 +104,15 @@ class Run:
             raise Inconclusive("go build %s failed (tags=%s):\n%s" % (cmd, tags, p.stdout + p.stderr))
         return out
 
-    def overlay_test(self, pkg, files, run, tags=(), env=None, timeout=1200, race=False, extra_args=()):
+    def overlay_test(self, pkg, files, run, tags=(), env=None, timeout=1200, race=False, extra_args=(), extra_replace=None):
         """Run in-package test files kept under /verif/overlay/<pkg>/ inside /repo/<pkg> with
         `go test -overlay` (nothing is written under /repo)."""
         ov = {"Replace": {}}
         for rel in files:
             src = os.path.join(ROOT, "overlay", rel)
             ov["Replace"][os.path.join(REPO, rel)] = src
+        if extra_replace:
+            ov["Replace"].update(extra_replace)
         ovp = os.path.join(self.scratch, "overlay-%d.json" % len(os.listdir(self.scratch)))
         json.dump(ov, open(ovp, "w"))
         args = ["go", "test", "-vet=off", "-count=1", "-overlay", ovp, "-run", run, "-timeout", "%ds" % timeout]
